@@ -7,6 +7,7 @@ package h
 import (
 	"bytes"
 	"fmt"
+	"strings"
 
 	"github.com/rminnich/go9p/vsim/rt"
 )
@@ -238,6 +239,19 @@ func (w *SrvWork) build(q *wReq) *Msg {
 	case Twstat:
 		m.Stat = Stat{Type: 0xFFFF, Dev: 0xFFFFFFFF, Qid: Qid{0xFF, 0xFFFFFFFF, 0xFFFFFFFFFFFFFFFF}, Mode: 0o600, Atime: 0xFFFFFFFF, Mtime: uint32(q.Idx),
 			Length: 0xFFFFFFFFFFFFFFFF, Name: fmt.Sprintf("r%d", q.Idx), Nuid: 0xFFFFFFFF, Ngid: 0xFFFFFFFF, Nmuid: 0xFFFFFFFF}
+		if q.N > 100 {
+			// padded to a frame of exactly the msize this connection negotiates: the largest well-formed request
+			c := w.x.C
+			ms := effMsize(c)
+			if o := int(c.cfg("cmsize_other")); o != 0 && q.Conn > 0 && o < ms {
+				ms = o
+			}
+			dotu := (w.dotu != (q.Conn > 0 && c.cfg("dotu_other") != 0)) && c.cfg("sdotu") != 0
+			if base := len(Encode(m, dotu)); ms > base && ms-base < 60000 {
+				m.Stat.Name += strings.Repeat("n", ms-base)
+				w.x.Probe("request-of-exactly-msize")
+			}
+		}
 	}
 	q.Msg = m
 	return m
